@@ -165,7 +165,23 @@ fn drive(engine: &Engine, rt: &CtlRuntime, sql: &str, rng: &mut Rng, policy: &st
             }
         }
         if runnable.is_empty() {
-            break json!({"outcome": "hang", "unfinished_pipelines": done.iter().filter(|d| !**d).count()});
+            let mut dbg: Vec<String> = Vec::new();
+            if std::env::var("GVH_SCHED_DEBUG").is_ok() {
+                for (i, p) in pipelines.iter().enumerate() {
+                    if !done[i] {
+                        let full = format!("{:?}", p);
+                        let mut names: Vec<&str> = Vec::new();
+                        for part in full.split("PlannedOperator").skip(1) {
+                            if let Some(k) = part.find("name: ") {
+                                names.push(part[k + 6..].split(',').next().unwrap_or(""));
+                            }
+                        }
+                        let stack = full.rfind("stack: ").map(|k| full[k..].chars().take(300).collect::<String>()).unwrap_or_default();
+                        dbg.push(format!("task {} ops {:?} {}", i, names, stack));
+                    }
+                }
+            }
+            break json!({"outcome": "hang", "unfinished_pipelines": done.iter().filter(|d| !**d).count(), "debug": dbg});
         }
         let pick = match policy {
             "fifo" => runnable[0],
